@@ -294,7 +294,10 @@ fn check_cli(e: &BFCase, t0: &str, t1: &str, sc: &crate::tol::Scales, rer_is_noi
             ensure!(run.status == Some(0), "cli_status", "cteepbd failed on a valid building: {}", run.summary());
             let i = run.stdout.find("** Eficiencia energética").ok_or_else(|| Failure::new("cli_report", "no report section"))?;
             // RER lines are ratios of residues when the total primary energy is noise
-            let txt: String = run.stdout[i..].lines().filter(|l| !(rer_is_noise && l.starts_with("RER"))).collect::<Vec<_>>().join("\n");
+            // (and a printed ratio far outside [0, 1] - the perimeter ratios under the known findings - amplifies the
+            // rounding of its denominator by its own magnitude: two processes print -26353.56 and -26329.29)
+            let wild = |l: &str| l.rsplit('=').next().and_then(|v| v.trim().parse::<f64>().ok()).map(|v| v.abs() > 2.0).unwrap_or(false);
+            let txt: String = run.stdout[i..].lines().filter(|l| !(l.starts_with("RER") && (rer_is_noise || wild(l)))).collect::<Vec<_>>().join("\n");
             Ok(crate::props::c17::parse_report(&txt))
         })();
         run.cleanup();
